@@ -23,7 +23,7 @@ N5  the single-word fast path of bintMod (bintModi, signed temporary) is
     entered only for divisors below the sign bit of a word.
 """
 from . import common, c04_builtins
-from .common import AnalysisBroken, walk, strip, render, calls
+from .common import AnalysisBroken, walk, strip, render, calls, const_value
 
 EXPLANATION = (
     "C11, thin structural part only. N1: in dword.c (runtime configuration) every word sum of xxPlusStep/xxTimesStep has two terms "
@@ -440,6 +440,48 @@ def carry_chain(rep):
     rep.floor("chained carry steps in digit loops", n, 8)
 
 
+def chunk_power(rep):
+    """Text conversion works a whole digit at a time: the text radix is raised to the largest power `rio` that can be used as a
+    one-digit multiplier or divisor, i.e. rio < BINT_RADIX = 2^32 (the multiplier is handed to a 32-bit digit parameter).  The
+    decimal loops are written `10*rio <= BINT_RADIX`; that is the same thing only because no power of 10 equals 2^32.  For a
+    radix that is a power of two (2, 4, 16 -- and any variable radix may be one) `<=` lets rio reach 2^32 exactly, the digit
+    parameter receives 0, and the accumulated value is discarded at every step: a long 16r.. literal keeps only its last eight
+    digits.  Every loop of bigint.c that bounds a growing power against BINT_RADIX uses `<`, or `<=` with a constant radix that
+    is not a power of two."""
+    f = common.extract("bigint.c", "runtime", all_trees=True)
+    n = 0
+    for name, fn in sorted(f.funcs.items()):
+        if "body" not in fn or not fn.get("file", "").endswith("bigint.c"):
+            continue
+        for lp in walk(fn["body"]):
+            if lp["k"] not in ("ForStmt", "WhileStmt"):
+                continue
+            cond = strip(lp["c"][-3]) if lp["k"] == "ForStmt" else strip(lp["c"][0])
+            if cond is None or cond["k"] != "BinaryOperator" or cond["op"] not in ("<", "<="):
+                continue
+            rhs = cond["c"][1]
+            if not any((y.get("mac") == "BINT_RADIX") for y in walk(rhs)) or const_value(rhs) is None:
+                continue
+            lhs = strip(cond["c"][0])
+            if lhs is None or lhs["k"] != "BinaryOperator" or lhs["op"] != "*":
+                continue
+            n += 1
+            key = "chunk-power-below-radix:%s@%d" % (name, n)
+            where = "bigint.c:%d (%s)" % (lp["l"], name)
+            a, b = strip(lhs["c"][0]), strip(lhs["c"][1])
+            consts = [const_value(x) for x in (a, b) if const_value(x) is not None]
+            if cond["op"] == "<":
+                rep.ok("N10", key)
+            elif consts and all(c > 1 and (c & (c - 1)) != 0 for c in consts):
+                rep.ok("N10", key, sample={"radix": consts[0], "why": "no power of %d equals 2^32" % consts[0]})
+            else:
+                rep.violation("N10", "chunk-power-below-radix:%s" % name, where,
+                              "the power of the text radix is allowed to reach BINT_RADIX itself (`%s`) for a radix that can be a "
+                              "power of two: for radix 2, 4 or 16 the multiplier becomes 2^32, is cut to 0 when passed as a digit, and "
+                              "the number scanned keeps only its last chunk (`16r1000000000000000000CD` reads as 205)" % render(cond)[:60])
+    rep.floor("loops bounding a power of the text radix by BINT_RADIX", n, 1)
+
+
 def run(tier, only=None):
     rep = common.Report("C11", tier, EXPLANATION)
     c04_builtins.carry_steps(rep, rule="N1")
@@ -460,6 +502,7 @@ def run(tier, only=None):
     qhat_carry(rep)
     order_duals(rep)
     carry_chain(rep)
+    chunk_power(rep)
     from . import deadstore
     deadstore.report(rep, "N9", ("dword.c", "bigint.c", "foam_i.c"), floor_units=3)
     rep.floor("C11 structural obligations", rep.obligations, 15)
